@@ -185,3 +185,4 @@ pub mod bundle;
 pub mod cutil;
 pub mod c31;
 pub mod c02;
+pub mod c29;
